@@ -37,10 +37,15 @@ class BaseCheck:
             return False
 
         cases = [f.case for f in failures if f.case is not None]
-        for case in list(cases) + list(self.search_cases()):
-            v = self.oracle(case)
-            if v is not None and not is_known(v):
-                return v
+        from . import gen
+        try:
+            for case in list(cases) + list(self.search_cases()):
+                gen.use(case)            # meshes are handed to the implementation in the presentation the case records
+                v = self.oracle(case)
+                if v is not None and not is_known(v):
+                    return v
+        finally:
+            gen.use(None)
         return None
 
     def search_cases(self):
@@ -55,7 +60,12 @@ class BaseCheck:
 
     def replay(self, rp):
         if rp.get("kind") == "failing-input":
-            v = self.oracle(rp["input"])
+            from . import gen
+            gen.use(rp["input"])
+            try:
+                v = self.oracle(rp["input"])
+            finally:
+                gen.use(None)
             return None if v is None else "%s: %s" % (v.clause, v.what)
         # broken obligation: re-run the ties
         from . import lean
